@@ -4,6 +4,6 @@ D=$(readlink -f $1); id=$(basename $D); P=${id:0:3}
 S=$(mktemp -d /tmp/cvss-seed.XXXXXX)
 rsync -a --exclude .git /repo/ "$S/repo/"; mkdir -p "$S/verif/evidence"; cp /verif/known_findings.txt "$S/verif/"
 (cd "$S/repo" && patch -p1 -s < "$D/patch.diff") || { echo "$id PATCH-FAILED"; rm -rf "$S"; exit; }
-out=$(/verif/bin/cvsslint.new -prop "$P" -repo "$S/repo" -verif "$S/verif" 2>&1); r=$?
+out=$(${CVSSLINT:-/verif/bin/cvsslint.new} -prop "$P" -repo "$S/repo" -verif "$S/verif" 2>&1); r=$?
 if [ $r -eq 1 ]; then echo "$id caught: $(echo "$out" | grep -E '^  (VIOLATION|UNDECIDED)' | head -1 | cut -c1-160)"; else echo "$id MISSED (exit $r)"; fi
 rm -rf "$S"
